@@ -1,7 +1,11 @@
 """Verification-condition engine for fdtdx (see /verif/DESIGN.md section 2)."""
+import os
 import sys
 
-REPO_SRC = "/repo/src"
+# VERIF_REPO_SRC: development-only override (mutation experiments on a scratch copy of the source);
+# the registered checks never set it and always verify /repo/src.
+REPO_SRC = os.environ.get("VERIF_REPO_SRC", "/repo/src")
+sys.path[:] = [p for p in sys.path if p != "/repo/src" or REPO_SRC == "/repo/src"]
 if REPO_SRC not in sys.path:
     sys.path.insert(0, REPO_SRC)
 
